@@ -347,6 +347,7 @@ def set_item(I, st, base, key, v, node):
             I.check(st, z3.And(idx >= 0, idx < length), "IndexError", "list.store", site)
             idx = z3.simplify(idx)
             o.items = None
+            o.arr = None
             o.length = length
             o.get = lambda j, idx=idx, v=v, get=get: ite(st, to_z3(j) == idx, v, get(j))
             return
@@ -628,6 +629,10 @@ def comprehension(I, st, e, kind):
         ref = mk_symlist(st, n, get)
         st.obj(ref).elems_fresh = elems_fresh
         return ref
+    if seq is None and len(gens) == 1 and gens[0].ifs and kind == "list":
+        r = I.ctx._hook("filter_comprehension", I, st, e, first)
+        if r is not NotImplemented:
+            return r
     raise OutOfSubset(f"comprehension #{k} at line {e.lineno} over a symbolic sequence needs a loop specification")
 
 
